@@ -3174,12 +3174,20 @@ TSQuery *ts_query_new(
       // decisions about whether or not to start matching the pattern when
       // a query cursor has a range restriction or when immediately within an
       // error node.
+      // Dead-end steps (the ends of alternation branches) only redirect to another
+      // step and match no node, so they are skipped: stopping at the first one would
+      // hide a later sibling of the root, as in `((a [(b) (c)]) (d))`. A step at the
+      // root's depth that directly follows such a dead-end step of the same depth is
+      // the start of the next branch of a root-level alternation - another root, not
+      // a sibling of this one.
       uint32_t start_depth = step->depth;
       bool is_rooted = start_depth == 0;
       for (uint32_t step_index = start_step_index + 1; step_index < self->steps.size; step_index++) {
         QueryStep *child_step = array_get(&self->steps, step_index);
-        if (child_step->is_dead_end) break;
+        if (child_step->is_dead_end) continue;
         if (child_step->depth == start_depth) {
+          QueryStep *previous_step = array_get(&self->steps, step_index - 1);
+          if (previous_step->is_dead_end && previous_step->depth == start_depth) continue;
           is_rooted = false;
           break;
         }
